@@ -78,6 +78,7 @@ type tableEngine struct {
 	game                      Game
 	gameBackend               GameBackend
 	rg                        *syncsaga.ReadyGroup
+	deadlineLock              sync.Mutex // guards State.CurrentActionEndAt (the extension is a read-modify-write racing the hand's own updates)
 	rgLock                    sync.Mutex // serialises re-arming the join gate (rg) with PlayerJoin's signal to it
 	tbForOpenGame             *timebank.TimeBank
 	sm                        seat_manager.SeatManager
@@ -493,9 +494,11 @@ PlayerExtendActionDeadline 延長玩家動作結束時間
   - 適用時機: 當玩家動作時間計時器開始時
 */
 func (te *tableEngine) PlayerExtendActionDeadline(playerID string, duration int) (int64, error) {
+	te.deadlineLock.Lock()
 	endAt := time.Unix(te.table.State.CurrentActionEndAt, 0)
 	currentActionEndAt := endAt.Add(time.Duration(duration) * time.Second).Unix()
 	te.table.State.CurrentActionEndAt = currentActionEndAt
+	te.deadlineLock.Unlock()
 	te.emitEvent("PlayerExtendActionDeadline", "")
 	return currentActionEndAt, nil
 }
